@@ -314,7 +314,7 @@ impl super::MainState {
         if let Some(good) = auth_opt {
             if good {
                 let user_nick = conn_state.user_state.nick.clone().unwrap();
-                let user_modes = {
+                let (user_modes, lusers_counts) = {
                     // add new user to hash map
                     let user_state = &mut conn_state.user_state;
                     user_state.registered = registered;
@@ -330,7 +330,8 @@ impl super::MainState {
                         );
                         let umode_str = user.modes.to_string();
                         state.add_user(&user_nick, user);
-                        umode_str
+                        // numbers for welcome messages - as they are just after registration
+                        (umode_str, super::srv_query_cmds::LUsersCounts::new(&state))
                     } else {
                         // if nick already used - this connection is still not registered
                         user_state.authenticated = false;
@@ -410,7 +411,7 @@ impl super::MainState {
                 }
 
                 // send messages from LUSERS and MOTD
-                self.process_lusers(conn_state).await?;
+                self.send_lusers(conn_state, lusers_counts).await?;
                 self.process_motd(conn_state, None).await?;
 
                 // send mode reply
